@@ -343,7 +343,7 @@ def no_channels(U, rep):
   for _, (modname, cname) in envs.items():
     scope |= {q for q, f in U.funcs.items() if f.mod.name == modname}
   scope |= {q for q, f in U.funcs.items() if f.mod.name in ('brax.envs.base',)}
-  ncoll = naxis = 0
+  ncoll = naxis = nprng = 0
   for q in sorted(scope):
     f = U.funcs[q]
     for n in own_nodes(f.node):
@@ -354,6 +354,16 @@ def no_channels(U, rep):
           ncoll += 1
           rep.fail('R7.3', 'collective|%s|%s' % (q, short), 'cross-member collective `%s` in code that runs under vmap' % name,
                    where=f.where(n), construct=ast.unparse(n)[:120])
+        # a PRNG key is consumed with the implementation it came with: only the default (threefry) generator is
+        # vmap-invariant -- under `rbg` / `unsafe_rbg` the bits of a batch are generated from member 0's key, so every other
+        # member's draw depends on member 0's seed, its own index and the batch size (JAX documents this caveat)
+        if name in ('jax.random.wrap_key_data', 'jax.random.key_impl') or (
+            name in ('jax.random.key', 'jax.random.PRNGKey') and any(k.arg == 'impl' for k in n.keywords)) or (
+                name == 'jax.config.update' and n.args and isinstance(n.args[0], ast.Constant) and 'prng' in str(n.args[0].value)):
+          nprng += 1
+          rep.fail('R7.3', 'prng|%s|%s' % (q, short), 'the PRNG key is re-wrapped / re-implemented (`%s`) in code that runs under vmap: '
+                   'generators other than the default are not vmap-invariant (a member\'s draw would depend on the other members)' % name,
+                   where=f.where(n), construct=ast.unparse(n)[:120])
         if short in ('safe_norm', 'normalize') and (name.startswith('brax.math.') or f.mod.name == 'brax.math') and q not in (
             'brax.math.normalize',):
           if any(k.arg == 'axis' for k in n.keywords) or len(n.args) > 1:
@@ -362,6 +372,7 @@ def no_channels(U, rep):
                      'argument (all batch members)' % short, where=f.where(n), construct=ast.unparse(n)[:120])
   rep.check(ncoll == 0, 'R7.3', 'no collectives / axis names in mapped code', 'collectives found', construct='%d functions scanned' % len(scope))
   rep.check(naxis == 0, 'R7.3', 'no caller relies on the ignored axis parameter of safe_norm / normalize', 'axis callers found')
+  rep.check(nprng == 0, 'R7.3', 'PRNG keys are consumed with the implementation they came with', 'key re-wrapping found')
   # the positive example: normalize's own pass-through must still be visible to the scanner
   f = U.func('brax.math.normalize')
   seen = any(isinstance(n, ast.Call) and any(k.arg == 'axis' for k in n.keywords) and (dotted(n.func) or [''])[-1] == 'safe_norm'
